@@ -269,6 +269,7 @@ package encoding
 //@ func TSDDecoder.GetValue
 //@   prop C14
 //@   opaque tok bitsval
+//@   timeout 240
 //@   requires d.buf != nil && tsdDecWired(d) && bit.rSane(d.reader) && xdOK(d.values)
 //@   modifies d.idx, d.err, d.reader.b, d.reader.count, d.reader.err, d.reader.buf.index, d.values.err, d.values.first, d.values.val, d.values.leading, d.values.trailing
 //@   ensures[only_the_next_slot_can_be_read] (slot < d.startTime || slot > d.endTime || slot != old(d.idx) + d.startTime) ==> !result1
